@@ -118,3 +118,49 @@ def c01(ctx, api):
                                          simulate=sim, timeout=1200)
     acc.add('GenSurface -simulate depth<=6', st, summ, exhaustive=False)
     return acc.result(RULE_PINNED, extra={'bounds': {'bfs_depth': depth, 'pool_documents': 15}})
+
+
+# --------------------------------------------------------------------- C17
+@plan('C17')
+def c17(ctx, api):
+    acc = Acc()
+    thorough = ctx['tier'] == 'thorough'
+    st, summ = api['run_tlc_to_harness'](ctx, 'ident', 'GenIdent',
+                                         cfg(constants={'Emit': 'TRUE', 'Prop': '"C17"', 'Big': tb(thorough)}),
+                                         timeout=3000)
+    acc.add('GenIdent schemata S1,S2,S4,S5,S7 (%s selector pool)' % ('large' if thorough else 'small'), st, summ)
+    # the fused AST nodes behind the identities (and the S6 forms) through the surface generator
+    depth = 3 if thorough else 2
+    st, summ = api['run_tlc_to_harness'](ctx, 'surface-bfs', 'GenSurface',
+                                         cfg(constants={'MaxDepth': depth, 'Emit': 'TRUE', 'Prop': '"C17"'}),
+                                         timeout=3000)
+    acc.add('GenSurface BFS depth %d' % depth, st, summ)
+    if thorough:
+        st, text = api['run_tlc_only'](ctx, 'ident-s6', 'GenIdent',
+                                       cfg(constants={'Emit': 'FALSE', 'Prop': '"C17"', 'Big': 'FALSE'},
+                                           invariants=('S6',)), timeout=1200)
+        if st['errors'] or st['rc'] != 0:
+            raise api['Broken']('S6 model check failed: %s' % st['errors'][:3])
+        acc.add('S6 (multi-select list = concatenation) on the model', st, None)
+    return acc.result(RULE_PINNED + '; a pair case is non-trivial when both sides have one common pinned outcome, '
+                      'in which case the harness also demands that the two real results are equal',
+                      extra={'schemata': ['S1 P sels = P | [*] sels', 'S2 x[*].e = map(&e,x)[*]', 'S4 a.b = a | b',
+                                          'S5 (P).s = P | s', 'S6 [e1,e2] = [e1] ++ [e2]', 'S7 {k:e}.k = e']})
+
+
+# --------------------------------------------------------------------- C10
+@plan('C10')
+def c10(ctx, api):
+    acc = Acc()
+    thorough = ctx['tier'] == 'thorough'
+    consts = {'Emit': 'TRUE', 'Prop': '"C10"', 'Triples': tb(thorough),
+              'Pool <- ' + ('PoolOpsBig' if thorough else 'PoolOps'): None,
+              'NDocs': 1000 if thorough else 343}
+    text = cfg(constants={k: v for k, v in consts.items() if v is not None})
+    text = text.replace('CONSTANTS\n', 'CONSTANTS\n  Pool <- %s\n' % ('PoolOpsBig' if thorough else 'PoolOps'))
+    st, summ = api['run_tlc_to_harness'](ctx, 'ops', 'GenOps', text, timeout=3000)
+    acc.add('GenOps: all ordered pairs of the 18 operator spellings%s x %d documents'
+            % (' with every unary prefix placement' if thorough else ' (+ every single operator with unary prefixes)',
+               1000 if thorough else 343), st, summ)
+    return acc.result(RULE_PINNED + '; each case also carries the fully parenthesised text, which must give the same result on the real code',
+                      extra={'model_checks': ['GroupsByTable', 'UnaryTighterThanBinary', 'ParenNeutral', 'AllParse']})
